@@ -13,6 +13,7 @@ type VerifError struct {
 	Offset int
 	Prefix string // "line:col (offset): rule <name>"
 	Msg    string // message of the wrapped error
+	Kind   string // "max", "enc", "norule" when the wrapped error IS the parser's own sentinel, else ""
 }
 
 // VerifParse runs Parse and additionally returns the parser's step counter
@@ -24,7 +25,16 @@ func VerifParse(b []byte, opts ...Option) (val any, err error, exprCnt uint64, e
 	if el, ok := err.(errList); ok {
 		for _, e := range el {
 			if pe, ok := e.(*parserError); ok {
-				errs = append(errs, VerifError{Offset: pe.pos.offset, Prefix: pe.prefix, Msg: pe.Inner.Error()})
+				kind := ""
+				switch pe.Inner {
+				case errMaxExprCnt:
+					kind = "max"
+				case errInvalidEncoding:
+					kind = "enc"
+				case errNoRule:
+					kind = "norule"
+				}
+				errs = append(errs, VerifError{Offset: pe.pos.offset, Prefix: pe.prefix, Msg: pe.Inner.Error(), Kind: kind})
 			} else {
 				errs = append(errs, VerifError{Offset: -1, Msg: e.Error()})
 			}
